@@ -34,3 +34,8 @@ pub fn entities_decode(entity: &str) -> Option<String> {
 pub fn get_var_name(var_id: usize) -> String {
     crate::proc_gen::verif_get_var_name(var_id)
 }
+
+/// the name allocated when the counter is at `var_id`, and the counter afterwards
+pub fn next_ident_name(var_id: usize) -> (String, usize) {
+    crate::proc_gen::verif_next_ident_name(var_id)
+}
